@@ -3,7 +3,8 @@
 (a) point sets: for every integer matrix of the alphabets, the commensurate points are exactly |det| points,
 distinct mod 1, with S^T q integral, and the integer representation describes the same set;
 (b) round trip fc -> D(q_c) -> fc over (crystal, S, P) x range x layout x language x OpenMP flag, run twice on the
-same object; (c) Phonopy.ph2ph to multiples and non-multiples of the supercell, with and without NAC.
+same object, and with caller-supplied commensurate points in other orders / representatives / memory layouts;
+(c) Phonopy.ph2ph to multiples and non-multiples of the supercell, with and without NAC.
 """
 from __future__ import annotations
 
